@@ -101,7 +101,7 @@ func (v *Verifier) tryReplay(prop, name string, g *Group, cl *Claim, repo string
 			continue
 		}
 		parts := strings.Split(spec, "|")
-		if len(parts) != 3 {
+		if len(parts) != 3 && len(parts) != 6 {
 			continue
 		}
 		vdir := envOr("VERIF_DIR", "/verif")
@@ -113,12 +113,38 @@ func (v *Verifier) tryReplay(prop, name string, g *Group, cl *Claim, repo string
 		defer os.RemoveAll(scratch)
 		ov := filepath.Join(scratch, "ov.json")
 		target := filepath.Join(repo, parts[0], "zz_gowp_replay_test.go")
-		os.WriteFile(ov, []byte(fmt.Sprintf(`{"Replace":{%q:%q}}`, target, src)), 0o644)
+		ovText := fmt.Sprintf(`{"Replace":{%q:%q}}`, target, src)
+		instrNote := ""
+		if len(parts) == 6 {
+			// schedule forcing: insert one gate call after the anchor line in an overlay copy of the source file
+			srcFile := filepath.Join(repo, parts[3])
+			data, err := os.ReadFile(srcFile)
+			if err != nil {
+				return "replay: " + err.Error(), false
+			}
+			lines := strings.Split(string(data), "\n")
+			done := false
+			for i, l := range lines {
+				if strings.Contains(l, parts[4]) {
+					lines = append(lines[:i+1], append([]string{parts[5]}, lines[i+1:]...)...)
+					done = true
+					instrNote = fmt.Sprintf("overlay instrumentation of %s: inserted %q after line %d (%s)\n", parts[3], parts[5], i+1, strings.TrimSpace(l))
+					break
+				}
+			}
+			if !done {
+				return "replay: anchor " + parts[4] + " not found in " + parts[3], false
+			}
+			inst := filepath.Join(scratch, "instrumented.go")
+			os.WriteFile(inst, []byte(strings.Join(lines, "\n")), 0o644)
+			ovText = fmt.Sprintf(`{"Replace":{%q:%q,%q:%q}}`, target, src, srcFile, inst)
+		}
+		os.WriteFile(ov, []byte(ovText), 0o644)
 		cmd := exec.Command("go", "test", "-overlay", ov, "-vet=off", "-count=1", "-timeout", "60s", "-run", "^"+parts[2]+"$", "./"+parts[0])
 		cmd.Dir = repo
 		cmd.Env = append(os.Environ(), "GOFLAGS=-mod=mod", "GOPROXY=off", "GOSUMDB=off", "GOTOOLCHAIN=local")
 		out, err := cmd.CombinedOutput()
-		text := fmt.Sprintf("witness test %s (%s) via go test -overlay:\n%s", parts[2], src, trunc(string(out), 4000))
+		text := fmt.Sprintf("%switness test %s (%s) via go test -overlay:\n%s", instrNote, parts[2], src, trunc(string(out), 4000))
 		if err != nil && strings.Contains(string(out), "--- FAIL") {
 			return text, true
 		}
